@@ -58,6 +58,22 @@ func evalRef1(n *node) (*uv, error) {
 		return n.Val, nil
 	case n.Op == "()":
 		return evalRef(n.X)
+	case n.Op == "real" || n.Op == "imag":
+		x, err := evalRef(n.X)
+		if err != nil {
+			return nil, err
+		}
+		return realImagRef(n.Op, x)
+	case n.Op == "complex":
+		x, err := evalRef(n.X)
+		if err != nil {
+			return nil, err
+		}
+		y, err := evalRef(n.Y)
+		if err != nil {
+			return nil, err
+		}
+		return complexRef(x, y)
 	case n.Y == nil:
 		x, err := evalRef(n.X)
 		if err != nil {
@@ -74,6 +90,28 @@ func evalRef1(n *node) (*uv, error) {
 		return nil, err
 	}
 	return binaryRef(n.Op, x, y)
+}
+
+// realImagRef: Go specification, "Manipulating complex numbers": for real and imag the argument must be of complex type
+// (an untyped numeric constant is converted to an untyped complex constant first) and, if the argument is an untyped
+// constant, "the return value of the function is an untyped floating-point constant".
+func realImagRef(op string, x *uv) (*uv, error) {
+	if !isNumK(x.K) {
+		return nil, errReject
+	}
+	if op == "real" {
+		return &uv{K: KFloat, Re: x.Re}, nil
+	}
+	return &uv{K: KFloat, Re: x.im()}, nil
+}
+
+// complexRef: "If the operands of [complex] are all constants, ... the arguments must be non-complex numbers or their
+// imaginary parts must be zero"; two untyped constant arguments give an untyped complex constant.
+func complexRef(x, y *uv) (*uv, error) {
+	if !isNumK(x.K) || !isNumK(y.K) || x.im().Sign() != 0 || y.im().Sign() != 0 {
+		return nil, errReject
+	}
+	return &uv{K: KComplex, Re: x.Re, Im: y.Re}, nil
 }
 
 func unaryRef(op string, x *uv) (*uv, error) {
